@@ -130,6 +130,7 @@ def run_indices(pid, tier, master, indices, want_plans=False):
         mod = load_prop(pid)
         results = []
         for i in indices:
+            faulthandler.dump_traceback_later(RUN_WALL_LIMIT, exit=True)   # re-armed per run
             seed = seed_for(master, pid, i)
             plan = mod.generate(random.Random(seed), tier, i)
             out = execute_plan(mod, plan)
